@@ -59,6 +59,8 @@ type MetricRegistry struct {
 
 	mu sync.Mutex
 	wg sync.WaitGroup
+	// lifecycle serialises Start and Stop, so that a Start never adds to the wait group while a Stop is waiting on it
+	lifecycle sync.Mutex
 
 	started bool
 	stopper chan bool
@@ -99,6 +101,8 @@ func NewGoMetricsMetricRegistry(
 
 // Start will start the metric registry polling
 func (r *MetricRegistry) Start() {
+	r.lifecycle.Lock()
+	defer r.lifecycle.Unlock()
 	r.mu.Lock()
 	if !r.started {
 		r.started = true
@@ -134,6 +138,8 @@ func (r *MetricRegistry) run() {
 
 // Stop will gracefully stop the registry
 func (r *MetricRegistry) Stop() {
+	r.lifecycle.Lock()
+	defer r.lifecycle.Unlock()
 	r.mu.Lock()
 	if !r.started {
 		r.mu.Unlock()
